@@ -496,6 +496,11 @@ class FuzzStream(runner.Stream):
             HDR + "A ::= B (WITH COMPONENTS { a ())) })\nEND",
             "Module DEFINITIONS ::= BEGIN END", "_Module DEFINITIONS ::= BEGIN END",
             "éModule DEFINITIONS ::= BEGIN IMPORTS a FROM 名Module; END",
+            "CaféModule DEFINITIONS ::= BEGIN A ::= INTEGER END", "Größe_Module DEFINITIONS ::= BEGIN A ::= INTEGER END",
+            "€aModule DEFINITIONS ::= BEGIN A ::= INTEGER END", "𝄞Module DEFINITIONS ::= BEGIN END",
+            "M DEFINITIONS ::= BEGIN IMPORTS a FROM CaféModule b FROM Größe_Module c FROM aéModule; END",
+            "M DEFINITIONS ::= BEGIN A ::= INTEGER END /* end */", "M DEFINITIONS ::= BEGIN A ::= INTEGER END /* end */\n",
+            "M DEFINITIONS ::= BEGIN A ::= INTEGER END\n/* a /* nested */ comment */",
             "", " ", "\n", "M", "BEGIN", "END", "M BEGIN", "M BEGIN END", "{", "M {", "M { 1", "M { a (", "M { a ( 1",
             # the sanctioned panic and its neighbours
             "M BEGIN /* x", "M BEGIN /* x\n", "M BEGIN /* x */ END", "M BEGIN /*", "M BEGIN /* *", "M BEGIN END /* /* */ x",
